@@ -951,16 +951,62 @@ def run_level(ctx, res, level):
     )
 
 
+ISO_NEG = [("keyMatch", "/bar", "/foo*"), ("keyMatch2", "/bob/r1", "/alice/:id"), ("keyMatch3", "/bob/r1", "/alice/{id}"), ("keyMatch4", "/a/1/b/2", "/a/{id}/b/{id}"),
+           ("keyMatch5", "/bob?x=1", "/alice"), ("regexMatch", "abc", "^x"), ("ipMatch", "10.0.0.1", "192.168.0.0/16"), ("globMatch", "/bar", "/foo*")]
+
+
+def _isolation_case(name_key_pat):
+    """in a fresh process: several enforcers whose matcher calls a built-in; ONE of them re-registers that name with a
+    function of its own (legitimate: add_function); the others - built before, built afterwards, and one whose model is
+    set again - must still answer with the documented pattern language"""
+    name, key, pat = name_key_pat
+    casbin = common.use_repo()
+    text = ENF_TEXT % name
+
+    def mk():
+        e = casbin.Enforcer(casbin.Enforcer.new_model(text=text))
+        e.add_policy(pat)
+        return e
+
+    first, a, b = mk(), mk(), mk()
+    out = {"before": [bool(x.enforce(key)) for x in (first, a, b)]}
+    a.add_function(name, lambda *args: True)
+    c = mk()
+    b.set_model(casbin.Enforcer.new_model(text=text))
+    b.add_policy(pat)
+    d = mk()
+    out["own"] = bool(a.enforce(key))
+    out["others"] = {"built first": bool(first.enforce(key)), "built before, model set again": bool(b.enforce(key)), "built afterwards": bool(c.enforce(key)), "built last": bool(d.enforce(key))}
+    return out
+
+
+def isolation_stream(ctx, res):
+    with multiprocessing.Pool(1, maxtasksperchild=1) as pool:
+        outs = pool.map(_isolation_case, ISO_NEG, chunksize=1)
+    for (name, key, pat), out in zip(ISO_NEG, outs):
+        res.evaluations += 1
+        res.count("stream:isolation")
+        bad = [k for k, v in out["others"].items() if v] + (["before any registration"] if any(out["before"]) else [])
+        if bad:
+            res.violation({"signature": f"C13:isolation:{name}", "stream": "isolation", "case": [name, key, pat], "op": "isolation", "args": [name, key, pat], "expected": False, "observed": True,
+                           "what": f"{name}({key!r}, {pat!r}) is no match in the documented pattern language, but after ANOTHER enforcer of the process re-registered {name} the enforcer(s) [{', '.join(bad)}] allow it"})
+
+
 def run(ctx):
     res = common.Result()
     levels = [0] if not ctx["deep"] else ([1] if ctx["proof_ok"] else [0, 1])
     for lv in levels:
         run_level(ctx, res, lv)
+        isolation_stream(ctx, res)
         if res.spec_violations:
             break
     return res
 
 
 def replay(obj):
+    if obj.get("stream") == "isolation":
+        with multiprocessing.Pool(1, maxtasksperchild=1) as pool:
+            out = pool.map(_isolation_case, [tuple(obj["case"])])[0]
+        return any(out["others"].values()) or any(out["before"])
     got = impl_call(obj["op"], tuple(obj["args"]))
     return got != obj["expected"]
